@@ -37,13 +37,14 @@ def build_request(rid):
     if rid == 2:
         kw.update(footprint=False, meas_pt=(0.0, 0.0))
     elif rid == 3:
-        kw.update(analytic=True, z=zc, profiles=profc)
+        kw.update(analytic=True, z=zc, profiles=profc, halo=None)
     elif rid == 4:
         kw.update(analytic=True, footprint=False, z=zc, profiles=profc, precision="double")
     elif rid == 5:
         kw.update(precision="double")
     elif rid == 6:
-        kw.update(footprint=False, halo=None)
+        # the same arguments as request 2 on another source grid (the halo is not a whole number of its cells)
+        kw.update(footprint=False)
         shape = (6, 10)
     elif rid == 7:
         # the same extended grid, level count and precision as request 1 with FEWER modes: whatever an earlier solve
